@@ -384,7 +384,21 @@ struct RingWorld : World {
 				if (cq->_d.len != d.size()) fail("content", "C++ queue holds %zu bytes, a deque would hold %zu", cq->_d.len, d.size());
 				continue;
 			}
-			if (k == 0 || k == 1) {
+			if ((k == 0 || k == 1) && !d.empty() && (x & 0x600) == 0x600) {
+				// what is pushed is part of what the queue holds (the pointer lies inside its own storage, which may move when it grows)
+				span<const uint8_t> v; { Sut s; v = cq->peek(0); }
+				size_t so = (size_t) (x >> 3) % d.size(), avail = (size_t) v.size() > so ? (size_t) v.size() - so : 0; size_t sl = avail ? 1 + (size_t) (x >> 5) % std::min<size_t>(avail, 30) : 0;
+				if (sl) {
+					std::vector<uint8_t> own(d.begin() + so, d.begin() + so + sl);
+					bool ok; { Sut s; ok = k == 0 ? cq->push(v.begin() + so, sl) : cq->unshift(v.begin() + so, sl); }
+					log.ev("  cxx %s %zu of its own bytes at %zu -> %d", k == 0 ? "push" : "unshift", sl, so, (int) ok); st.hit("probe:cxx_queue_push_own_content");
+					if (!ok) fail("refused-valid", "C++ queue %s of %zu of its own bytes refused", k == 0 ? "push" : "unshift", sl);
+					if (k == 0) d.insert(d.end(), own.begin(), own.end()); else d.insert(d.begin(), own.begin(), own.end());
+					span<const uint8_t> w; { Sut s; w = cq->peek(0); }
+					if ((size_t) w.size() != d.size()) { /* peek shows the first contiguous part only when the content wraps */ }
+					for (size_t j = 0; j < (size_t) w.size() && j < d.size(); ++j) if (w.begin()[j] != d[j]) fail("read", "after a %s of its own bytes the C++ queue reads %02x at %zu, a deque holds %02x", k == 0 ? "push" : "unshift", w.begin()[j], j, d[j]);
+				}
+			} else if (k == 0 || k == 1) {
 				for (size_t j = 0; j < n; ++j) buf[j] = ser++ ? ser : ++ser;
 				bool ok; uint64_t fired;
 				{ Sut s(i == 3 ? failn : 0); ok = k == 0 ? cq->push(buf, n) : cq->unshift(buf, n); fired = g.fired; }
